@@ -82,6 +82,8 @@ type Exec struct {
 	syncMaps   map[*Cont]*MapV
 	nameSeq    int
 	curInstr   ssa.Instruction
+	model      Assignment // satisfies the path condition once the prefix has been replayed
+	evalMemo   map[uint32]uint64
 }
 
 type Run struct {
@@ -93,7 +95,7 @@ type Run struct {
 
 	mu       sync.Mutex
 	cond     *sync.Cond
-	work     [][]Decision
+	work     []workItem
 	inflight int
 	stopped  bool
 
@@ -218,6 +220,35 @@ func (ex *Exec) decide(c *Term, site ssa.Instruction) bool {
 	return ex.decideV(c, 0)
 }
 
+// holds evaluates a Bool term under the path's witness model.
+func (ex *Exec) holds(c *Term) bool {
+	return ex.f.Eval(c, ex.model, map[uint32]uint64{}) != 0
+}
+
+// checkSide decides feasibility of PC ∧ c; on Sat the returned model covers c's slice.
+func (ex *Exec) checkSide(c *Term) (Verdict, Assignment) {
+	if c.op == OpConst {
+		if c.c != 0 {
+			return Sat, nil
+		}
+		return Unsat, nil
+	}
+	q := append(ex.pcSlice(c), c)
+	r := ex.sol.Check(q, true, false)
+	return r.V, r.Model
+}
+
+func mergeModel(base, over Assignment) Assignment {
+	m := make(Assignment, len(base)+len(over))
+	for k, v := range base {
+		m[k] = v
+	}
+	for k, v := range over {
+		m[k] = v
+	}
+	return m
+}
+
 func (ex *Exec) decideV(c *Term, val uint64) bool {
 	if c.op == OpConst {
 		return c.c != 0
@@ -240,40 +271,52 @@ func (ex *Exec) decideV(c *Term, val uint64) bool {
 		}
 		return d.Taken
 	}
-	vt := ex.feasible(c)
-	var vf Verdict
-	if vt == Unsat {
-		vf = Sat // PC is satisfiable (invariant), so the other side must be
-	} else {
-		vf = ex.feasible(f.Not(c))
-	}
-	if vt == Unknown || vf == Unknown {
-		ex.inconclusive++
-	}
-	canT, canF := vt != Unsat, vf != Unsat
-	switch {
-	case canT && canF:
-		alt := make([]Decision, len(ex.trace)+1)
-		copy(alt, ex.trace)
-		alt[len(ex.trace)] = Decision{Taken: false, Val: val}
-		ex.run.push(alt)
-		d := Decision{Taken: true, Val: val}
-		ex.trace = append(ex.trace, d)
-		ex.prefix = ex.trace
-		ex.pos = len(ex.trace)
-		ex.taken++
-		ex.addPC(c)
-		return true
-	case canT:
+	nc := f.Not(c)
+	// syntactic entailment: the condition (or its negation) is already a conjunct of the PC
+	if ex.pcSet[c.id] {
 		ex.trace = append(ex.trace, Decision{Taken: true, Forced: true, Val: val})
 		ex.prefix, ex.pos = ex.trace, len(ex.trace)
 		return true
-	case canF:
+	}
+	if ex.pcSet[nc.id] {
 		ex.trace = append(ex.trace, Decision{Taken: false, Forced: true, Val: val})
 		ex.prefix, ex.pos = ex.trace, len(ex.trace)
 		return false
 	}
-	panic(PathEnd{"infeasible", "both branch sides infeasible"})
+	// the witness model of the path condition settles one side without a query;
+	// the solver decides the other side.
+	mT := ex.holds(c)
+	var other *Term
+	if mT {
+		other = nc
+	} else {
+		other = c
+	}
+	v, m2 := ex.checkSide(other)
+	if v == Unknown {
+		ex.inconclusive++
+	}
+	if v == Unsat {
+		ex.trace = append(ex.trace, Decision{Taken: mT, Forced: true, Val: val})
+		ex.prefix, ex.pos = ex.trace, len(ex.trace)
+		return mT
+	}
+	// both sides feasible (or the other side undecided: explored, flagged inconclusive)
+	otherModel := mergeModel(ex.model, m2)
+	alt := make([]Decision, len(ex.trace)+1)
+	copy(alt, ex.trace)
+	alt[len(ex.trace)] = Decision{Taken: false, Val: val}
+	if mT {
+		ex.run.push(alt, otherModel)
+	} else {
+		ex.run.push(alt, ex.model)
+		ex.model = otherModel
+	}
+	ex.trace = append(ex.trace, Decision{Taken: true, Val: val})
+	ex.prefix, ex.pos = ex.trace, len(ex.trace)
+	ex.taken++
+	ex.addPC(c)
+	return true
 }
 
 // concretize forks over the feasible values of t and returns the value of this path.
@@ -290,21 +333,8 @@ func (ex *Exec) concretize(t *Term, why string) uint64 {
 		if ex.pos < len(ex.prefix) {
 			v = ex.prefix[ex.pos].Val
 		} else {
-			// ask the solver for a value of t consistent with the path condition
-			probe := f.Eq(t, t) // const true; we need a model over t's slice
-			_ = probe
-			q := ex.pcSlice(t)
-			// add a tautology mentioning t so that its variables are declared
-			q = append(q, f.Or(f.Cmp(OpULe, t, Const(0, t.w)), f.Cmp(OpULt, Const(0, t.w), t)))
-			r := ex.sol.Check(q, true, false)
-			if r.V != Sat {
-				if r.V == Unknown {
-					ex.inconclusive++
-					panic(PathEnd{"inconclusive", "concretize: solver unknown"})
-				}
-				panic(PathEnd{"infeasible", "concretize: path condition unsat"})
-			}
-			v = f.Eval(t, r.Model, map[uint32]uint64{})
+			// the witness model of the path condition supplies a feasible value
+			v = f.Eval(t, ex.model, map[uint32]uint64{})
 		}
 		if ex.decideV(f.Eq(t, Const(v, t.w)), v) {
 			return v
@@ -345,12 +375,18 @@ func (ex *Exec) addAssume(c *Term) {
 		ex.addPC(c)
 		return
 	}
-	v := ex.feasible(c)
+	if ex.holds(c) {
+		ex.addPC(c)
+		return
+	}
+	v, m2 := ex.checkSide(c)
 	if v == Unsat {
 		panic(PathEnd{"assume", "assumption infeasible"})
 	}
 	if v == Unknown {
 		ex.inconclusive++
+	} else {
+		ex.model = mergeModel(ex.model, m2)
 	}
 	ex.addPC(c)
 }
@@ -499,19 +535,24 @@ func (ex *Exec) showVal(v Value, m Assignment, memo map[uint32]uint64) string {
 // ---------------------------------------------------------------------------
 // worklist
 
-func (r *Run) push(p []Decision) {
+type workItem struct {
+	prefix []Decision
+	model  Assignment
+}
+
+func (r *Run) push(p []Decision, m Assignment) {
 	r.mu.Lock()
-	r.work = append(r.work, p)
+	r.work = append(r.work, workItem{p, m})
 	r.mu.Unlock()
 	r.cond.Signal()
 }
 
-func (r *Run) pop() ([]Decision, bool) {
+func (r *Run) pop() (workItem, bool) {
 	r.mu.Lock()
 	defer r.mu.Unlock()
 	for {
 		if r.stopped {
-			return nil, false
+			return workItem{}, false
 		}
 		if n := len(r.work); n > 0 {
 			p := r.work[n-1]
@@ -522,7 +563,7 @@ func (r *Run) pop() ([]Decision, bool) {
 		if r.inflight == 0 {
 			r.stopped = true
 			r.cond.Broadcast()
-			return nil, false
+			return workItem{}, false
 		}
 		r.cond.Wait()
 	}
@@ -550,7 +591,7 @@ func (r *Run) abort(why string) {
 
 func (r *Run) Explore() {
 	r.cond = sync.NewCond(&r.mu)
-	r.work = [][]Decision{nil}
+	r.work = []workItem{{nil, Assignment{}}}
 	r.KnownHits = map[string]Violation{}
 	r.KnownCount = map[string]int{}
 	r.UnsupMsgs = map[string]int{}
@@ -603,8 +644,12 @@ func (r *Run) newExec(f *Factory, sol *SolverClient, prefix []Decision) *Exec {
 	}
 }
 
-func (r *Run) runPath(f *Factory, sol *SolverClient, prefix []Decision) {
-	ex := r.newExec(f, sol, prefix)
+func (r *Run) runPath(f *Factory, sol *SolverClient, wi workItem) {
+	ex := r.newExec(f, sol, wi.prefix)
+	ex.model = wi.model
+	if ex.model == nil {
+		ex.model = Assignment{}
+	}
 	res := PathResult{Kind: "done"}
 	func() {
 		defer func() {
@@ -637,9 +682,12 @@ func (r *Run) runPath(f *Factory, sol *SolverClient, prefix []Decision) {
 	case "done":
 		n := atomic.AddInt64(&r.Done, 1)
 		if r.SampleCap > 0 && (n <= int64(r.SampleCap) || pseudoPick(n, r.Seed, r.sampleEvery)) {
-			if m, v := ex.fullModel(); v == Sat {
-				sample = &PathSample{Model: m, Obs: ex.evalObs(m), Kind: "done"}
+			// the path's witness model (maintained from solver models) is the sample
+			m := Assignment{}
+			for _, d := range ex.draws {
+				m[d.Name] = ex.model[d.Name]
 			}
+			sample = &PathSample{Model: m, Obs: ex.evalObs(m), Kind: "done"}
 		}
 	case "assume", "infeasible":
 		atomic.AddInt64(&r.Assumed, 1)
